@@ -31,7 +31,7 @@ class RecordingDB:
         self.record = True
         self.label = None         # set by the harness: API call in progress
         self.checkers = []        # callables (db, op, key, value) -> None or raise
-        self.hidden = set()
+        self._hidden = {}         # node bodies taken away by hide(): physically absent
         self.fail_write_at = None  # 1-based index of the write that raises
         self.writes = 0
         self.reads = 0
@@ -57,6 +57,26 @@ class RecordingDB:
     def snapshot(self):
         return dict(self._d)
 
+    # -- missing-node faults: hidden entries are physically absent until supplied
+    def hide(self, keys):
+        for k in keys:
+            if k in self._d:
+                self._hidden[k] = self._d.pop(k)
+
+    def supply(self, key):
+        if key in self._hidden:
+            self._d[key] = self._hidden.pop(key)
+
+    @property
+    def hidden(self):
+        return set(self._hidden)
+
+    def complete(self):
+        """contents as they would be with nothing hidden"""
+        d = dict(self._hidden)
+        d.update(self._d)
+        return d
+
     def raw(self):
         return self._d
 
@@ -64,8 +84,6 @@ class RecordingDB:
     def __getitem__(self, key):
         self.reads += 1
         self._event("get", key)
-        if key in self.hidden:
-            raise KeyError(key)
         return self._d[key]
 
     def __setitem__(self, key, value):
@@ -74,43 +92,35 @@ class RecordingDB:
         if self.fail_write_at is not None and self.writes == self.fail_write_at:
             raise InjectedWriteFailure("injected failure of write #%d" % self.writes)
         self._d[key] = value
-        self.hidden.discard(key)
+        self._hidden.pop(key, None)
 
     def __delitem__(self, key):
         self.deletes += 1
         self._event("del", key)
-        if key in self.hidden:
-            raise KeyError(key)
         del self._d[key]
 
     def __contains__(self, key):
         self._event("in", key)
-        return key not in self.hidden and key in self._d
+        return key in self._d
 
     def pop(self, key, *default):
         self.deletes += 1
         self._event("pop", key)
-        if key in self.hidden:
-            if default:
-                return default[0]
-            raise KeyError(key)
         return self._d.pop(key, *default)
 
     def get(self, key, default=None):
         self.reads += 1
         self._event("get", key)
-        if key in self.hidden:
-            return default
         return self._d.get(key, default)
 
     def keys(self):
-        return [k for k in self._d.keys() if k not in self.hidden]
+        return list(self._d.keys())
 
     def items(self):
-        return [(k, v) for k, v in self._d.items() if k not in self.hidden]
+        return list(self._d.items())
 
     def values(self):
-        return [v for k, v in self._d.items() if k not in self.hidden]
+        return list(self._d.values())
 
     def __iter__(self):
         return iter(self.keys())
